@@ -19,8 +19,13 @@ that its EOF arrived — no timer needed); `C03_closing_finished_lost` and
 `C03_closing_finished_ack_lost` (the Finished PDU or its ACK is lost in the closing handshake: the
 receiver's timer expires, the identical Finished PDU is re-sent; stated from any state in which the
 sender has sent everything and the receiver has acknowledged the EOF, so they compose with each of
-the runs above — one fault before the closing handshake, one in it).  Proved as whole-run theorems
-about the receiver model: `C03_single_loss_recovery` (any one File Data PDU but the last never arrives: exactly one NAK
+the runs above — one fault before the closing handshake, one in it); `C03_end_to_end_naks_lost` (a
+File Data PDU is lost and then ANY NUMBER of NAKs below the NAK limit: every expiry re-issues exactly
+the same NAK, `C03_nak_expiries` by induction over the expiry times) and
+`C03_end_to_end_retransmission_lost` (the retransmission is lost again; the sender answers the
+re-issued NAK from its retransmission step).  The building blocks are stated from states, not from
+runs (`C03_prefix_single_loss`, `C03_recovery_from_waiting`, `C03_closing*`), so they compose.
+Proved as whole-run theorems about the receiver model: `C03_single_loss_recovery` (any one File Data PDU but the last never arrives: exactly one NAK
 with exactly the missing range, the retransmission completes the file, verification, Finished PDU,
 idle, file byte-identical) and `C03_tail_loss_recovery` (everything from some offset on is missing at
 the EOF).  Proved are the safety half
@@ -1860,6 +1865,670 @@ theorem C03_closing_finished_ack_lost (cfgS cfgD : LocalCfg) (s4 : Source.SrcSt)
   exact ⟨d4, s5, s6, d4', d5, h1, h2, h5, h6, h8, h9, h11, h3, h4, h7, h10, h12, h13, h14, h15, h16, h17, h18⟩
 
 
+/-! ## The NAK, or the retransmission it asked for, is lost -/
+
+def nakExpP (p : Params) (now : Nat) (tm : Timer) : Params :=
+  { p with nakCounter := p.nakCounter + 1, procTimer := some ⟨now, tm.timeout⟩ }
+
+def afterNakExpiry (d : DestSt) (now : Nat) (tm : Timer) (F : List UInt8) (a b : Nat) : DestSt :=
+  { d with queue := [mkNak d.p.conf 0 F.length [(a, b)]], numReady := 1, p := nakExpP d.p now tm }
+
+/-- **The call in which the receiver's NAK timer expired** (activity counter below the limit): exactly
+one NAK PDU, identical to the first one — scope `(0, |F|)`, the single request `(a, b)` —, the counter
+is incremented and the timer restarted; nothing else changes -/
+theorem C03_nak_expiry_call (env : Env) (d : DestSt) (dst : String) (F crc : List UInt8) (a b : Nat)
+    (rc : RemoteCfg) (t : Tid) (cks : Nat) (conf : Hdr) (tm : Timer) (G : List UInt8) (m maxSegs : Nat)
+    (hr : Waiting d dst F crc a b rc t cks conf tm G m)
+    (hmax : maxSegReqs rc.maxPkt conf = some maxSegs) (hms : 1 ≤ maxSegs)
+    (hexp : tm.timedOut env.now = true) (hlim : d.p.nakCounter + 1 ≠ rc.nakLim) :
+    stateMachine env none d = .ok () (afterNakExpiry d env.now tm F a b) ∧
+      Waiting (drained (afterNakExpiry d env.now tm F a b)) dst F crc a b rc t cks conf ⟨env.now, tm.timeout⟩ G m := by
+  constructor
+  · unfold stateMachine
+    generalize (stateMachineWith env none (stateMachineWith env none (throw Err.recursionError))) = rec
+    have hmax' : maxSegReqs rc.maxPkt d.p.conf = some maxSegs := by rw [hr.hconf]; exact hmax
+    have hnm : ¬ maxSegs ≤ 0 := by omega
+    have hre := C04.C04_nak_expiry_reissues env d tm rc F.length maxSegs hr.hdef hr.hcancel hr.hrc hr.hfse
+      (Or.inl (by rw [hr.htrk]; simp)) hr.hpt hexp hlim hmax'
+    simp only [hr.hqueue, List.nil_append, hr.hready, hr.htrk, hr.hmm] at hre
+    have hseq : nakSequence d.p.conf F.length maxSegs false [(a, b)] = [mkNak d.p.conf 0 F.length [(a, b)]] := by
+      simp [nakSequence, splitReqs, hnm]
+    rw [hseq] at hre
+    msimp [stateMachineWith, hr.hbusy, nonIdleFsm, fsmAdvancementAfterPacketsWereSent, hr.hqueue,
+      hr.hstep, fsmFromReceiving, fsmFromWaitingForMetadata, fsmFromCheckLimit, fsmFromWaitingForMissingData,
+      hre, fsmFromTransferCompletion, fsmFromSendingFinishedPdu, fsmFromWaitingForFinishedAck,
+      afterNakExpiry, nakExpP]
+    exact ⟨hr.htrk.symm, hr.hmm⟩
+  · exact
+      { hbusy := hr.hbusy, hstep := hr.hstep, hready := rfl, hqueue := rfl, hconf := hr.hconf, hmode := hr.hmode,
+        hname := hr.hname, hfile := hr.hfile, hprog := hr.hprog, hcrc := hr.hcrc, hfse := hr.hfse, hrc := hr.hrc,
+        htid := hr.htid, hrej := hr.hrej, hcks := hr.hcks, hcancel := hr.hcancel, hmo := hr.hmo, hfin := hr.hfin,
+        htrk := hr.htrk, hmm := hr.hmm, hdef := hr.hdef, hpt := rfl, hlastS := hr.hlastS, hlastE := hr.hlastE }
+
+
+theorem feed_keeps_nak_counter (env : Env) (h conf : Hdr) (rc : RemoteCfg) (t : Tid) (cks : Nat) (dst : String)
+    (ha : AdmissibleA env rc h) :
+    ∀ (cs : List (List UInt8)) (P : List UInt8) (d d' : DestSt), (∀ c ∈ cs, c ≠ []) →
+      ReceivingA d dst P rc t cks conf → feed env h cs P.length d = some d' →
+      d'.p.nakCounter = d.p.nakCounter := by
+  intro cs
+  induction cs with
+  | nil => intro P d d' _ _ hf; simp [feed] at hf; rw [hf]
+  | cons c cs ih =>
+    intro P d d' hne hr hf
+    have hc : c ≠ [] := hne c (by simp)
+    obtain ⟨hcall, hr'⟩ := C02_tile_ack env d dst P c rc t cks conf h hr ha hc
+    simp only [feed, hcall] at hf
+    have := ih (P ++ c) _ d' (fun x hx => hne x (by simp [hx])) hr' (by simpa using hf)
+    rw [this]; rfl
+
+theorem feedSeg_keeps_nak_counter (env : Env) (h conf : Hdr) (rc : RemoteCfg) (t : Tid) (cks : Nat) (dst : String)
+    (F : List UInt8) (a b seg : Nat) (hab : a < b) (hseg : 0 < seg) (ha : AdmissibleA env rc h) :
+    ∀ (k m : Nat) (d d' : DestSt), b ≤ m → m ≤ F.length → (k = 0 ∨ m + (k - 1) * seg < F.length) →
+      ReceivingH d dst F a b m rc t cks conf → feedSeg env h F seg k m d = some d' →
+      d'.p.nakCounter = d.p.nakCounter := by
+  intro k
+  induction k with
+  | zero => intro m d d' _ _ _ _ hf; simp [feedSeg] at hf; rw [hf]
+  | succ k ih =>
+    intro m d d' hbm hmle hk hr hf
+    have hmlt : m < F.length := by
+      rcases hk with h0 | h0
+      · omega
+      · have : m ≤ m + (k + 1 - 1) * seg := Nat.le_add_right _ _
+        omega
+    obtain ⟨hcall, hr'⟩ := C03_tile_behind_hole env d dst F a b m seg rc t cks conf h hr ha hab hbm hmlt hseg
+    have hk' : k = 0 ∨ min (m + seg) F.length + (k - 1) * seg < F.length := by
+      by_cases h0 : k = 0
+      · exact Or.inl h0
+      · right
+        have h1 := hk.resolve_left (by omega)
+        simp only [Nat.add_sub_cancel] at h1
+        have h2 : k = (k - 1) + 1 := by omega
+        rw [h2, Nat.add_mul, Nat.one_mul] at h1
+        have : min (m + seg) F.length ≤ m + seg := Nat.min_le_left _ _
+        omega
+    simp only [feedSeg, hcall] at hf
+    have := ih (min (m + seg) F.length) _ d' (by omega) (Nat.min_le_right _ _) hk' hr' hf
+    rw [this]; rfl
+
+/-- the receiver's run up to the NAK, one File Data PDU lost (first half of `C03_single_loss_recovery`,
+with the resulting state) -/
+theorem C03_receiver_prefix_single_loss (env env2 : Env) (d0 : DestSt) (h : Hdr) (rc : RemoteCfg)
+    (closure : Bool) (cks : Nat) (sname dname : String) (msgs : Option (List Msg)) (F crc : List UInt8)
+    (cs1 : List (List UInt8)) (a b seg k maxSegs : Nat)
+    (ha : AdmissibleA env rc h)
+    (hnak : rc.nakMs ≠ 0) (himm : rc.imm = false)
+    (hmaxs : maxSegReqs rc.maxPkt ⟨.toSend, h.mode, h.crc, h.large, h.src, h.dst, h.seq⟩ = some maxSegs)
+    (hmax1 : 1 ≤ maxSegs)
+    (hidle : d0.state = .idle) (hq : d0.queue = []) (hr : d0.numReady = 0) (hrej : d0.rejects = [])
+    (hfl : d0.flts = []) (hnd : Fs.isDir d0.fs dname = false)
+    (hok : (∃ old, d0.fs.get dname = some (.file old)) ∨
+           (Fs.exists' d0.fs dname = false ∧ Fs.parentIsDir d0.fs dname = true))
+    (hcs1 : cs1.flatten = F.take a) (hne1 : ∀ c ∈ cs1, c ≠ [])
+    (hseg : 0 < seg) (hb : b = a + seg) (hbF : b < F.length)
+    (hk : min (b + seg) F.length + (k - 1) * seg < F.length ∨ k = 0)
+    (hkend : F.length ≤ min (b + seg) F.length + k * seg) :
+    let cdh : Hdr := ⟨.toSend, h.mode, h.crc, h.large, h.src, h.dst, h.seq⟩
+    ∃ d1 d2 d3 d4 d5 d6,
+      stateMachine env (some (.md h closure cks F.length (some sname) (some dname) msgs)) d0 = .ok () d1 ∧
+      feed env h cs1 0 d1 = some d2 ∧
+      stateMachine env (some (.fd h b ((F.drop b).take seg))) d2 = .ok () d3 ∧
+      feedSeg env h F seg k (min (b + seg) F.length) d3 = some d4 ∧
+      stateMachine env (some (.eof h ccNoError crc F.length none)) d4 = .ok () d5 ∧
+      d5.queue = [mkAck cdh dtEof ccNoError tsActive] ∧
+      stateMachine env2 none (drained d5) = .ok () d6 ∧
+      d6.queue = [mkNak cdh 0 F.length [(a, b)]] ∧
+      Waiting (drained d6) dname F crc a b rc ⟨h.src, h.seq⟩ cks cdh ⟨env2.now, rc.nakMs⟩
+        (holeFile F a b F.length) F.length ∧
+      (∀ q, q ≠ dname → d6.fs.get q = d0.fs.get q) ∧ d6.flts = [] ∧
+      d6.inds.filter isFinished = d0.inds.filter isFinished ∧ d6.p.nakCounter = 0 := by
+  intro cdh
+  have hab : a < b := by omega
+  have haF : a ≤ F.length := by omega
+  -- Metadata and the tiles before the lost one
+  obtain ⟨hmd, hR1⟩ := C02_metadata_ack env d0 h rc closure cks F.length sname dname msgs ha hidle hq hr hrej hfl hnd hok
+  obtain ⟨d2, hfeed, hR2, hother2, hfin2⟩ := C02_tiles_ack env h _ rc _ cks dname ha cs1 [] _ hne1 hR1
+  have hpt2 := feed_keeps_timer env h _ rc _ cks dname ha cs1 [] _ d2 hne1 hR1 hfeed
+  simp only [List.nil_append, hcs1, List.length_nil] at hfeed hR2
+  -- the tile behind the lost one
+  obtain ⟨hgap, hR3⟩ := C03_gap_tile env d2 dname F a b seg rc _ cks _ h hR2 ha hab hbF hseg himm
+  -- the remaining tiles
+  obtain ⟨d4, hfs, hR4, hother4, hfin4, hpt4⟩ := C03_tiles_behind_hole env h _ rc _ cks dname F a b seg hab hseg ha
+    k (min (b + seg) F.length) _ (by omega) (Nat.min_le_right _ _) (by rcases hk with h1 | h1; exact Or.inr h1; exact Or.inl h1)
+    hR3
+  have hend : min (min (b + seg) F.length + k * seg) F.length = F.length := by omega
+  rw [hend] at hR4
+  -- EOF
+  have heof := C03_eof_with_hole env d4 dname F crc a b rc _ cks _ h hR4 ha
+  -- deferred procedure
+  have hA : AckedH (drained (afterEofA env d4 ⟨h.src, h.seq⟩ crc F.length)) dname F crc a b rc ⟨h.src, h.seq⟩ cks
+      ⟨.toSend, h.mode, h.crc, h.large, h.src, h.dst, h.seq⟩ (holeFile F a b F.length) F.length :=
+    { hbusy := hR4.hbusy, hstep := rfl, hready := rfl, hqueue := rfl, hconf := hR4.hconf, hmode := hR4.hmode,
+      hname := hR4.hname, hfile := hR4.hfile, hprog := hR4.hprog, hcrc := rfl, hfse := rfl, hrc := hR4.hrc,
+      htid := hR4.htid, hrej := hR4.hrej, hcks := hR4.hcks, hcancel := hR4.hcancel, hmo := hR4.hmo,
+      hfin := hR4.hfin, htrk := hR4.htrk, hmm := hR4.hmm, hdef := hR4.hdef,
+      hpt := by
+        show d4.p.procTimer = none
+        rw [hpt4]; show d2.p.procTimer = none
+        rw [hpt2]; rfl }
+  have hdef := C03_deferred_requests_hole env2 _ dname F crc a b rc _ cks _ maxSegs _ _ hA hmaxs hmax1 hnak
+  have hW : Waiting (drained (afterDeferred env2 (drained (afterEofA env d4 ⟨h.src, h.seq⟩ crc F.length)) F a b rc))
+      dname F crc a b rc ⟨h.src, h.seq⟩ cks ⟨.toSend, h.mode, h.crc, h.large, h.src, h.dst, h.seq⟩
+      ⟨env2.now, rc.nakMs⟩ (holeFile F a b F.length) F.length :=
+    { hbusy := hR4.hbusy, hstep := rfl, hready := rfl, hqueue := rfl, hconf := hR4.hconf, hmode := hR4.hmode,
+      hname := hR4.hname, hfile := hR4.hfile, hprog := hR4.hprog, hcrc := rfl, hfse := rfl, hrc := hR4.hrc,
+      htid := hR4.htid, hrej := hR4.hrej, hcks := hR4.hcks, hcancel := hR4.hcancel, hmo := hR4.hmo,
+      hfin := hR4.hfin, htrk := hR4.htrk, hmm := hR4.hmm, hdef := rfl, hpt := rfl, hlastS := rfl, hlastE := rfl }
+  have hnc2 := feed_keeps_nak_counter env h _ rc _ cks dname ha cs1 [] _ d2 hne1 hR1 (by simpa using hfeed)
+  have hnc4 := feedSeg_keeps_nak_counter env h _ rc _ cks dname F a b seg hab hseg ha
+    k (min (b + seg) F.length) _ d4 (by omega) (Nat.min_le_right _ _)
+    (by rcases hk with h1 | h1; exact Or.inr h1; exact Or.inl h1) hR3 hfs
+  refine ⟨_, d2, _, d4, _, _, hmd, hfeed, hgap, hfs, heof, ?_, hdef, ?_, hW, ?_, ?_, ?_, ?_⟩
+  · simp [afterEofA, hR4.hconf, cdh]
+  · simp [afterDeferred, drained, afterEofA, eofP, hR4.hconf, cdh]
+  · intro q hq'
+    simp only [drained, afterDeferred, afterEofA]
+    rw [hother4 q hq']
+    simp only [afterGap]
+    rw [Fs.C17.get_set_other _ _ _ _ hq', hother2 q hq']
+    simp [afterMdA, Fs.C17.get_set_other _ _ _ _ hq']
+  · simp [drained, afterDeferred, afterEofA, hR4.hflts]
+  · simp only [drained, afterDeferred, afterEofA, List.filter_append, hfin4]
+    simp only [afterGap, List.filter_append, hfin2]
+    have h1 : (afterMdA env d0 h rc closure cks F.length sname dname msgs).inds.filter isFinished =
+        d0.inds.filter isFinished := by simp [afterMdA, isFinished]
+    rw [h1]
+    cases env.cfg.indSegRecv <;> cases env.cfg.indEofRecv <;> simp [isFinished]
+  · show d4.p.nakCounter = 0
+    rw [hnc4]; show d2.p.nakCounter = 0
+    rw [hnc2]; rfl
+
+/-- **NAK at the sender after it has sent everything**, whether it waits for the Finished PDU or is
+still in the retransmission step of an earlier NAK (whose answer was retrieved): a request for one
+full segment is served with exactly the original File Data PDU -/
+theorem C03_sender_serves_request_any (env : Source.Env) (s : Source.SrcSt) (rc : RemoteCfg) (h : Hdr)
+    (req : Source.PutReq) (src : String) (F : List UInt8) (a b sos eos : Nat)
+    (ha : AdmissibleS env s rc h) (hb : s.state = .busy)
+    (hstep : s.step = .WAITING_FOR_FINISHED ∨
+      (s.step = .RETRANSMITTING ∧ s.stepBefore = some .WAITING_FOR_FINISHED))
+    (hq : s.queue = []) (hreq : s.putReq = some req) (hsrc : req.src = some src)
+    (hfile : s.fs.get src = some (.file F)) (hseg : 0 < s.p.segmentLen) (hab : b = a + s.p.segmentLen)
+    (hbp : b ≤ s.p.progress) :
+    Source.stateMachine env (some (.nak h sos eos [(a, b)])) s =
+      .ok () (retransS s [Source.mkFd s.p.conf a ((F.drop a).take s.p.segmentLen)]) := by
+  rcases hstep with hs | ⟨hs, hsb⟩
+  · exact C03_sender_serves_request env s rc h req src F a b sos eos ha hb hs hq hreq hsrc hfile hseg hab hbp
+  · obtain ⟨st, stp, nr, p, sb, pr, q, fs, fl, pv, ind, flt⟩ := s
+    have h1 := ha.hrc; have h2 := ha.hseq; have h3 := ha.hmode
+    simp only at hb hs hsb hq hreq hfile hseg hab hbp h1 h2 h3
+    subst hb hs hsb hq hreq
+    have hserve := Source.C08.C08_valid_request_served
+      (⟨.busy, .WAITING_FOR_FINISHED, nr, p, some .WAITING_FOR_FINISHED, some req, [], fs, fl, pv, ind, flt⟩ : Source.SrcSt)
+      req src F a b rfl hsrc hfile hseg (by omega) (by omega) hbp
+    have hba : b - a = p.segmentLen := by omega
+    simp only [hba, chunkPdus_one_segment _ _ _ _ hseg, List.nil_append] at hserve
+    msimp [Source.stateMachine, Source.checkInsertedPacket, Pdu.hdr, ha.hdir, ha.hsrc, h1, ha.hdst, h2,
+      Pdu.kind, Route.getPacketDestination, h3, Source.fsmNonIdle,
+      Source.fsmAdvancementAfterPacketsWereSent, Source.fsmFromSendingFileData, Source.fsmFromSendingEof,
+      Source.fsmFromWaitingForEofAck,
+      Source.fsmFromWaitingForFinished, Source.handleWaitForFinish, Source.transmissionMode,
+      Source.handleRetransmission, Source.handleSegmentReqs, hserve, Source.modP, Source.getP, Source.addPacket,
+      Source.fsmFromNoticeOfCompletion, retransS]
+
+/-- the receiver called at each of the given times, its queue retrieved after each call -/
+def nakRounds (cfg : LocalCfg) : List Nat → DestSt → Option (List Pdu × DestSt)
+  | [], d => some ([], d)
+  | t :: ts, d =>
+    match stateMachine ⟨cfg, t⟩ none d with
+    | .error _ _ => none
+    | .ok _ d' =>
+      match nakRounds cfg ts (drained d') with
+      | none => none
+      | some (out, d'') => some (d'.queue ++ out, d'')
+
+/-- **Any number of NAK timer expiries below the limit**: each re-issues exactly the same NAK PDU; the
+receiver keeps waiting for exactly the same bytes; file, fault callbacks and indications unchanged -/
+theorem C03_nak_expiries (cfg : LocalCfg) (dst : String) (F crc : List UInt8) (a b : Nat)
+    (rc : RemoteCfg) (t : Tid) (cks : Nat) (conf : Hdr) (G : List UInt8) (m maxSegs : Nat)
+    (hmax : maxSegReqs rc.maxPkt conf = some maxSegs) (hms : 1 ≤ maxSegs) :
+    ∀ (times : List Nat) (d : DestSt) (tm : Timer),
+      Waiting d dst F crc a b rc t cks conf tm G m → C04.Expiring tm.timeout tm.start times →
+      d.p.nakCounter + times.length < rc.nakLim →
+      ∃ d', nakRounds cfg times d =
+          some (List.replicate times.length (mkNak conf 0 F.length [(a, b)]), d') ∧
+        Waiting d' dst F crc a b rc t cks conf ⟨C04.lastOr tm.start times, tm.timeout⟩ G m ∧
+        d'.fs = d.fs ∧ d'.flts = d.flts ∧ d'.inds = d.inds := by
+  intro times
+  induction times with
+  | nil =>
+    intro d tm hr _ _
+    exact ⟨d, rfl, by simpa [C04.lastOr] using hr, rfl, rfl, rfl⟩
+  | cons x xs ih =>
+    intro d tm hr hexp hlim
+    simp only [C04.Expiring] at hexp
+    simp only [List.length_cons] at hlim
+    obtain ⟨hcall, hW⟩ := C03_nak_expiry_call ⟨cfg, x⟩ d dst F crc a b rc t cks conf tm G m maxSegs hr hmax hms
+      (by simp [Timer.timedOut]; exact hexp.1) (by omega)
+    obtain ⟨d', hrest, hW', hfs, hfl, hin⟩ := ih (drained (afterNakExpiry d x tm F a b)) ⟨x, tm.timeout⟩ hW hexp.2
+      (by simp only [drained, afterNakExpiry, nakExpP]; omega)
+    refine ⟨d', ?_, ?_, ?_, ?_, ?_⟩
+    · simp only [nakRounds, hcall, hrest]
+      simp [afterNakExpiry, hr.hconf, List.replicate_succ]
+    · simpa [C04.lastOr] using hW'
+    · rw [hfs]; rfl
+    · rw [hfl]; rfl
+    · rw [hin]; rfl
+
+/-- **Recovery, from the state in which the receiver waits for the bytes `[a, b)`.**  The sender has
+sent everything; the receiver has everything but one full segment and has asked for it.  A NAK for
+that segment reaches the sender: it answers with exactly the original File Data PDU; the receiver
+fills the hole, verifies and emits the Finished PDU; the sender — in its retransmission step —
+records and acknowledges it; both go idle. -/
+theorem C03_recovery_from_waiting (cfgS cfgD : LocalCfg) (sW : Source.SrcSt) (dW : DestSt) (req : Source.PutReq)
+    (src dst : String) (F crc : List UInt8) (seg a b : Nat) (conf : Hdr) (rcS rcD : RemoteCfg) (tid : Tid)
+    (cksN : Nat) (tm : Timer) (t1 t2 t3 t4 t5 : Nat)
+    (hS : SentAllS sW req src F seg conf rcS tid)
+    (hstep : sW.step = .WAITING_FOR_FINISHED ∨
+      (sW.step = .RETRANSMITTING ∧ sW.stepBefore = some .WAITING_FOR_FINISHED))
+    (hW : Waiting dW dst F crc a b rcD ⟨conf.src, conf.seq⟩ cksN
+      ⟨.toSend, conf.mode, conf.crc, conf.large, conf.src, conf.dst, conf.seq⟩ tm (holeFile F a b F.length) F.length)
+    (ha : ∀ t, AdmissibleA ⟨cfgD, t⟩ rcD { conf with dir := .toRecv })
+    (hsrcv : conf.src.val = cfgS.entityId.val) (hdstv : conf.dst.val = rcS.entityId.val)
+    (hseg0 : 0 < seg) (hab : b = a + seg) (hbF : b ≤ F.length) (hackD : rcD.ackMs ≠ 0)
+    (hver : cksN = 15 ∨ ∀ fs : Fs, fs.get dst = some (.file F) →
+      Fs.calcChecksum fs (Checksum.CksType.ofNat cksN) dst F.length 4096 = .ok crc) :
+    let cd : Hdr := ⟨.toSend, conf.mode, conf.crc, conf.large, conf.src, conf.dst, conf.seq⟩
+    let fpOk : FinishedParams := ⟨ccNoError, dcComplete, fsRetained, none⟩
+    let lost := Source.mkFd conf a ((F.drop a).take seg)
+    ∃ s5 d7 s6 d8 s7,
+      Source.stateMachine ⟨cfgS, t1⟩ (some (.nak cd 0 F.length [(a, b)])) sW = .ok () s5 ∧ s5.queue = [lost] ∧
+      Dest.stateMachine ⟨cfgD, t2⟩ (some lost) dW = .ok () d7 ∧ d7.queue = [.fin cd fpOk] ∧
+      Source.stateMachine ⟨cfgS, t3⟩ (some (.fin cd fpOk)) (Source.C07.drained s5) = .ok () s6 ∧
+      s6.queue = [Source.mkAck conf dtFinished ccNoError tsActive] ∧
+      Dest.stateMachine ⟨cfgD, t4⟩ (some (Source.mkAck conf dtFinished ccNoError tsActive)) (drained d7) = .ok () d8 ∧
+      Source.stateMachine ⟨cfgS, t5⟩ none (Source.C07.drained s6) = .ok () s7 ∧
+      s7.state = .idle ∧ d8.state = .idle ∧ s7.queue = [] ∧ d8.queue = [] ∧
+      d8.fs.get dst = some (.file F) ∧ (∀ q, q ≠ dst → d8.fs.get q = dW.fs.get q) ∧ s7.fs = sW.fs ∧
+      d8.flts = dW.flts ∧ s7.flts = sW.flts ∧
+      s7.inds.filter isFinished = sW.inds.filter isFinished ++
+        (if cfgS.indFinished then [.finished (some tid) fpOk] else []) ∧
+      d8.inds.filter isFinished = dW.inds.filter isFinished ++
+        (if cfgD.indFinished then [.finished (some ⟨conf.src, conf.seq⟩) fpOk] else []) := by
+  intro cd fpOk lost
+  have hmodeS : conf.mode = .ack := hW.hmode
+  have hab' : a < b := by omega
+  have hadm : ∀ t (s' : Source.SrcSt), s'.p = sW.p → AdmissibleS ⟨cfgS, t⟩ s' rcS cd := fun t s' hp =>
+    { hdir := rfl, hsrc := hsrcv, hrc := by rw [hp]; exact hS.hrc, hdst := hdstv,
+      hseq := by rw [hp, hS.hconf], hmode := by rw [hp, hS.hconf]; exact hmodeS }
+  have h5 := C03_sender_serves_request_any ⟨cfgS, t1⟩ sW rcS cd req src F a b 0 F.length (hadm t1 sW rfl) hS.hbusy hstep
+    hS.hqueue hS.hreq hS.hsrc hS.hfile (by rw [hS.hseg]; exact hseg0) (by rw [hS.hseg]; exact hab)
+    (by rw [hS.hprog]; exact hbF)
+  rw [hS.hseg, hS.hconf] at h5
+  have hret := C03_retransmission_completes ⟨cfgD, t2⟩ dW dst F crc a b rcD _ cksN _ { conf with dir := .toRecv } tm _ _ hW
+    (ha t2) hab' hbF hackD (write_fills_hole F a b hab' hbF) (by omega) hver
+  have hba : b - a = seg := by omega
+  rw [hba] at hret
+  have h6 := C03_sender_finished_after_retransmission ⟨cfgS, t3⟩ (Source.C07.drained (retransS sW [lost])) rcS cd
+    fpOk req (hadm t3 _ rfl) hS.hbusy rfl rfl rfl hS.hreq
+  have hfa := C02_finished_acked ⟨cfgD, t4⟩
+    (drained (afterRetransmission ⟨cfgD, t2⟩ dW dst F a b ⟨conf.src, conf.seq⟩ rcD tm))
+    rcD { conf with dir := .toRecv } ccNoError tsActive (ha t4) hW.hbusy rfl rfl
+    (by simp [drained, afterRetransmission, doneP, hW.hconf]; exact hmodeS)
+  have h7 := C02_source_completion ⟨cfgS, t5⟩
+    (Source.C07.drained (afterFinS (waitFinS (Source.C07.drained (retransS sW [lost]))) fpOk)) fpOk tid req
+    hS.hbusy rfl rfl hS.hreq rfl hS.htid
+  refine ⟨_, _, _, idleOf (drained (afterRetransmission ⟨cfgD, t2⟩ dW dst F a b ⟨conf.src, conf.seq⟩ rcD tm)), _,
+    h5, rfl, hret, ?_, h6, ?_, ?_, h7, rfl, rfl, rfl, rfl, ?_, ?_, rfl, rfl, rfl, ?_, ?_⟩
+  · simp [afterRetransmission, Dest.mkFin, hW.hconf, cd, fpOk]
+  · show [Source.mkAck sW.p.conf dtFinished fpOk.cond tsActive] = _
+    rw [hS.hconf]
+  · simpa [Source.mkAck, dtFinished, idleOf] using hfa
+  · simp [idleOf, drained, afterRetransmission, Fs.C17.get_set_same]
+  · intro q hq'
+    simp only [idleOf, drained, afterRetransmission]
+    rw [Fs.C17.get_set_other _ _ _ _ hq']
+  · simp only [Source.C07.drained, afterFinS, waitFinS, retransS, List.filter_append]
+    cases cfgS.indFinished <;> simp [isFinished, fpOk]
+  · simp only [idleOf, drained, afterRetransmission, List.filter_append]
+    cases cfgD.indSegRecv <;> cases cfgD.indFinished <;> simp [isFinished, fpOk]
+
+open Source.C07 Source.C19 in
+/-- **Both models up to the NAK, one File Data PDU lost.**  The sender's run; all PDUs but tile `j`
+reach the receiver; the ACK (EOF) goes back; the receiver's next call queues the NAK for exactly the
+lost range.  The sender then waits for the Finished PDU, the receiver for the bytes of tile `j`. -/
+theorem C03_prefix_single_loss (envS : Source.Env) (envD : Dest.Env) (s : Source.SrcSt) (d0 : Dest.DestSt)
+    (req : Source.PutReq) (rcS rcD : RemoteCfg) (src dst : String) (F crc : List UInt8) (seg j r maxSegs : Nat)
+    (now2 nowD2 : Nat)
+    (hst : s.state = .busy) (hstep : s.step = .IDLE) (hq : s.queue = []) (hreq : s.putReq = some req)
+    (hpmo : s.p.metadataOnly = false) (hsrc : req.src = some src) (hdst : req.dst = some dst)
+    (hfile : s.fs.get src = some (.file F)) (hF : F ≠ []) (hprog : s.p.progress = 0)
+    (hrc : s.p.remoteCfg = some rcS) (hrcid : rcS.entityId.val = req.destId.val)
+    (hbits : s.prov.bits = 8 ∨ s.prov.bits = 16 ∨ s.prov.bits = 32)
+    (hseg : Source.segLenOf rcS (startConf envS req rcS s (decide (F.length > 4294967295))) = some seg)
+    (hseg0 : 0 < seg) (hmode : s.p.conf.mode = .ack) (hct : s.p.checkTimer = none)
+    (hk : (j + 1 + r) * seg < F.length ∧ F.length ≤ (j + 2 + r) * seg)
+    (hcks : Checksum.calcChecksum (Checksum.CksType.ofNat rcS.cks) F F.length seg = .ok crc)
+    (hnull : Checksum.CksType.ofNat rcS.cks ≠ .null) (hlen : crc.length = 4) (hack : rcS.ackMs ≠ 0)
+    (ha : AdmissibleA envD rcD { startConf envS req rcS s (decide (F.length > 4294967295)) with dir := .toRecv })
+    (hnak : rcD.nakMs ≠ 0) (himm : rcD.imm = false)
+    (hmaxs : maxSegReqs rcD.maxPkt
+      (let c := startConf envS req rcS s (decide (F.length > 4294967295))
+       ⟨.toSend, c.mode, c.crc, c.large, c.src, c.dst, c.seq⟩) = some maxSegs) (hmax1 : 1 ≤ maxSegs)
+    (hidle : d0.state = .idle) (hdq : d0.queue = []) (hdr : d0.numReady = 0) (hrej : d0.rejects = [])
+    (hfl : d0.flts = []) (hnd : Fs.isDir d0.fs dst = false)
+    (hok : (∃ old, d0.fs.get dst = some (.file old)) ∨
+           (Fs.exists' d0.fs dst = false ∧ Fs.parentIsDir d0.fs dst = true)) :
+    let conf := startConf envS req rcS s (decide (F.length > 4294967295))
+    let cd : Hdr := ⟨.toSend, conf.mode, conf.crc, conf.large, conf.src, conf.dst, conf.seq⟩
+    let tid : Tid := ⟨envS.cfg.entityId, ⟨s.prov.next, s.prov.bits / 8⟩⟩
+    ∃ pdus s3 d5 s4 d6,
+      rounds envS (1 + (j + 2 + r) + 1) s = some (pdus, s3) ∧ pdus[j + 1]? = some (tile conf F seg 0 j) ∧
+      feedPdus envD (pdus.eraseIdx (j + 1)) d0 = some d5 ∧ d5.queue = [.ack cd dtEof ccNoError tsActive] ∧
+      Source.stateMachine ⟨envS.cfg, now2⟩ (some (.ack cd dtEof ccNoError tsActive)) s3 = .ok () s4 ∧
+      Dest.stateMachine ⟨envD.cfg, nowD2⟩ none (drained d5) = .ok () d6 ∧
+      d6.queue = [.nak cd 0 F.length [(j * seg, (j + 1) * seg)]] ∧
+      WaitingFinS s4 req src F seg conf rcS tid ∧
+      s4.fs = s.fs ∧ s4.flts = s.flts ∧ s4.inds.filter isFinished = s.inds.filter isFinished ∧
+      Waiting (drained d6) dst F crc (j * seg) ((j + 1) * seg) rcD ⟨conf.src, conf.seq⟩ rcS.cks cd ⟨nowD2, rcD.nakMs⟩
+        (holeFile F (j * seg) ((j + 1) * seg) F.length) F.length ∧
+      (∀ q, q ≠ dst → d6.fs.get q = d0.fs.get q) ∧ d6.flts = [] ∧
+      d6.inds.filter isFinished = d0.inds.filter isFinished ∧ d6.p.nakCounter = 0 := by
+  intro conf cd tid
+  have hsrcv : conf.src.val = envS.cfg.entityId.val := by simp [conf, startConf]
+  have hdstv : conf.dst.val = rcS.entityId.val := by simp [conf, startConf, hrcid]
+  have hseqv : conf.seq.val = s.prov.next := by simp [conf, startConf]
+  have e1 : (j + 1 + r) * seg = j * seg + seg + r * seg := by simp [Nat.add_mul]
+  have e2 : (j + 2 + r) * seg = j * seg + 2 * seg + r * seg := by simp [Nat.add_mul]
+  have e3 : (j + 1) * seg = j * seg + seg := by simp [Nat.add_mul]
+  have hbF : (j + 1) * seg < F.length := by omega
+  obtain ⟨s3, s4, hrun, h4, hW, hfs4, hfl4, hin4⟩ :=
+    C03_sender_run_to_waiting envS s req rcS src dst F crc seg (j + 2 + r) cd ccNoError tsActive now2
+      hst hstep hq hreq hpmo hsrc hdst hfile hF hprog hrc hbits hseg hseg0 hmode hct
+      (by constructor
+          · have : j + 2 + r - 1 = j + 1 + r := by omega
+            rw [this]; exact hk.1
+          · exact hk.2) hcks hnull hlen hack rfl hsrcv hdstv hseqv
+  have hchunks_ne : ∀ c ∈ (List.range j).map (fun i => (F.drop (0 + i * seg)).take seg), c ≠ [] := by
+    intro c hc
+    simp only [List.mem_map, List.mem_range] at hc
+    obtain ⟨i, hi, rfl⟩ := hc
+    intro h0
+    have := congrArg List.length h0
+    simp [List.length_take, List.length_drop] at this
+    have : i * seg ≤ j * seg := Nat.mul_le_mul_right _ (by omega)
+    omega
+  obtain ⟨d1, d2, d3, d4, d5, d6, hmd, hfeed, hgap, hfsg, heof, hq5, hdef, hq6, hWd, hother6, hfl6, hin6, hnc6⟩ :=
+    C03_receiver_prefix_single_loss envD ⟨envD.cfg, nowD2⟩ d0
+      { conf with dir := .toRecv } rcD s.p.closure rcS.cks src dst
+      (some (req.msgs.getD [])) F crc ((List.range j).map (fun i => (F.drop (0 + i * seg)).take seg))
+      (j * seg) ((j + 1) * seg) seg r maxSegs
+      ha hnak himm hmaxs hmax1 hidle hdq hdr hrej hfl hnd hok
+      (chunks_flatten F seg j) hchunks_ne hseg0 e3 hbF
+      (by rcases Nat.eq_zero_or_pos r with h0 | h0
+          · exact Or.inr h0
+          · left
+            have hr : r = (r - 1) + 1 := by omega
+            have : r * seg = (r - 1) * seg + seg := by rw [hr]; simp [Nat.add_mul]
+            have hm : min ((j + 1) * seg + seg) F.length = (j + 1) * seg + seg := by
+              have : seg ≤ r * seg := by rw [this]; omega
+              omega
+            rw [hm]; omega)
+      (by have : min ((j + 1) * seg + seg) F.length ≤ (j + 1) * seg + seg := Nat.min_le_left _ _
+          by_cases hc : (j + 1) * seg + seg ≤ F.length
+          · rw [Nat.min_eq_left hc]; omega
+          · have h2 : min ((j + 1) * seg + seg) F.length = F.length := by omega
+            rw [h2]; omega)
+  have hdeliv : feedPdus envD
+      (([Source.mkMd conf s.p.closure rcS.cks F.length (some src) (some dst) (some (req.msgs.getD []))] ++
+        (List.range (j + 2 + r)).map (tile conf F seg 0) ++ [Source.mkEof conf ccNoError crc F.length]).eraseIdx (j + 1))
+      d0 = some d5 := by
+    have hlen : j < ((List.range (j + 2 + r)).map (tile conf F seg 0)).length := by simp; omega
+    rw [List.append_assoc, List.singleton_append, List.eraseIdx_cons_succ,
+      List.eraseIdx_append_of_lt_length hlen]
+    have hjr : j + 2 + r = j + 1 + (1 + r) := by omega
+    rw [hjr, map_range_eraseIdx, Nat.add_comm 1 r, range_succ_map]
+    have ht1 : tile conf F seg 0 (j + 1 + 0) =
+        .fd { conf with dir := .toRecv } ((j + 1) * seg) ((F.drop ((j + 1) * seg)).take seg) := by
+      simp [tile, Source.mkFd]
+    have hrest : (List.range r).map (fun i => tile conf F seg 0 (j + 1 + (i + 1))) =
+        (List.range r).map (tile conf F seg (min ((j + 1) * seg + seg) F.length)) := by
+      rcases Nat.eq_zero_or_pos r with h0 | h0
+      · subst h0; rfl
+      · have hr : r = (r - 1) + 1 := by omega
+        have : r * seg = (r - 1) * seg + seg := by rw [hr]; simp [Nat.add_mul]
+        have hm : min ((j + 1) * seg + seg) F.length = (j + 1) * seg + seg := by
+          have : seg ≤ r * seg := by rw [this]; omega
+          omega
+        rw [hm]
+        apply List.map_congr_left
+        intro i _
+        have : 0 + (j + 1 + (i + 1)) * seg = (j + 1) * seg + seg + i * seg := by simp [Nat.add_mul]; omega
+        simp [tile, this]
+    rw [ht1, hrest]
+    simp only [List.cons_append, feedPdus, Source.mkMd, hmd]
+    rw [feedPdus_append, feedPdus_append, feedPdus_tiles_eq_feed envD conf F seg j 0 d1 (by omega), hfeed]
+    simp only [Option.bind, feedPdus, hgap]
+    rw [feedPdus_tiles_eq_feedSeg envD conf F seg r _ d3
+      (by rcases Nat.eq_zero_or_pos r with h0 | h0
+          · exact Or.inl h0
+          · right
+            have hr : r = (r - 1) + 1 := by omega
+            have : r * seg = (r - 1) * seg + seg := by rw [hr]; simp [Nat.add_mul]
+            have : min ((j + 1) * seg + seg) F.length ≤ (j + 1) * seg + seg := Nat.min_le_left _ _
+            omega), hfsg]
+    simp only [Option.bind, feedPdus, Source.mkEof, heof]
+  refine ⟨_, s3, d5, s4, d6, hrun, ?_, hdeliv, ?_, h4, hdef, ?_, hW, hfs4, hfl4, hin4, hWd, hother6, hfl6, hin6, hnc6⟩
+  · rw [List.append_assoc, List.singleton_append, List.getElem?_cons_succ,
+      List.getElem?_append_left (by simp; omega)]
+    rw [List.getElem?_map, List.getElem?_range (by omega)]
+    rfl
+  · simpa [Dest.mkAck, dtEof, dtFinished, cd] using hq5
+  · simpa [Dest.mkNak, cd] using hq6
+
+open Source.C07 Source.C19 in
+/-- **End to end with one File Data PDU lost and then any number of NAKs lost (below the NAK
+limit): the two models composed.**  After `C03_prefix_single_loss` the first NAK and the NAKs
+re-issued at the expiry times `times` all get lost (`times.length + 1 < nakLim`... precisely: the
+activity counter stays below the limit); each expiry re-issues exactly the same NAK.  The last one
+arrives; recovery proceeds as in `C03_recovery_from_waiting`. -/
+theorem C03_end_to_end_naks_lost (envS : Source.Env) (envD : Dest.Env) (s : Source.SrcSt) (d0 : Dest.DestSt)
+    (req : Source.PutReq) (rcS rcD : RemoteCfg) (src dst : String) (F crc : List UInt8) (seg j r maxSegs : Nat)
+    (now2 nowD2 t1 t2 t3 t4 t5 : Nat) (times : List Nat)
+    (hst : s.state = .busy) (hstep : s.step = .IDLE) (hq : s.queue = []) (hreq : s.putReq = some req)
+    (hpmo : s.p.metadataOnly = false) (hsrc : req.src = some src) (hdst : req.dst = some dst)
+    (hfile : s.fs.get src = some (.file F)) (hF : F ≠ []) (hprog : s.p.progress = 0)
+    (hrc : s.p.remoteCfg = some rcS) (hrcid : rcS.entityId.val = req.destId.val)
+    (hbits : s.prov.bits = 8 ∨ s.prov.bits = 16 ∨ s.prov.bits = 32)
+    (hseg : Source.segLenOf rcS (startConf envS req rcS s (decide (F.length > 4294967295))) = some seg)
+    (hseg0 : 0 < seg) (hmode : s.p.conf.mode = .ack) (hct : s.p.checkTimer = none)
+    (hk : (j + 1 + r) * seg < F.length ∧ F.length ≤ (j + 2 + r) * seg)
+    (hcks : Checksum.calcChecksum (Checksum.CksType.ofNat rcS.cks) F F.length seg = .ok crc)
+    (hnull : Checksum.CksType.ofNat rcS.cks ≠ .null) (hlen : crc.length = 4) (hack : rcS.ackMs ≠ 0)
+    (ha : AdmissibleA envD rcD { startConf envS req rcS s (decide (F.length > 4294967295)) with dir := .toRecv })
+    (hackD : rcD.ackMs ≠ 0) (hnak : rcD.nakMs ≠ 0) (himm : rcD.imm = false)
+    (hmaxs : maxSegReqs rcD.maxPkt
+      (let c := startConf envS req rcS s (decide (F.length > 4294967295))
+       ⟨.toSend, c.mode, c.crc, c.large, c.src, c.dst, c.seq⟩) = some maxSegs) (hmax1 : 1 ≤ maxSegs)
+    (hexp : C04.Expiring rcD.nakMs nowD2 times) (hlim : times.length < rcD.nakLim)
+    (hidle : d0.state = .idle) (hdq : d0.queue = []) (hdr : d0.numReady = 0) (hrej : d0.rejects = [])
+    (hfl : d0.flts = []) (hnd : Fs.isDir d0.fs dst = false)
+    (hok : (∃ old, d0.fs.get dst = some (.file old)) ∨
+           (Fs.exists' d0.fs dst = false ∧ Fs.parentIsDir d0.fs dst = true)) :
+    let conf := startConf envS req rcS s (decide (F.length > 4294967295))
+    let cd : Hdr := ⟨.toSend, conf.mode, conf.crc, conf.large, conf.src, conf.dst, conf.seq⟩
+    let fpOk : FinishedParams := ⟨ccNoError, dcComplete, fsRetained, none⟩
+    let nak : Pdu := .nak cd 0 F.length [(j * seg, (j + 1) * seg)]
+    let lost := tile conf F seg 0 j
+    ∃ pdus s3 d5 s4 d6 dW s5 d7 s6 d8 s7,
+      rounds envS (1 + (j + 2 + r) + 1) s = some (pdus, s3) ∧ pdus[j + 1]? = some lost ∧
+      feedPdus envD (pdus.eraseIdx (j + 1)) d0 = some d5 ∧ d5.queue = [.ack cd dtEof ccNoError tsActive] ∧
+      Source.stateMachine ⟨envS.cfg, now2⟩ (some (.ack cd dtEof ccNoError tsActive)) s3 = .ok () s4 ∧
+      Dest.stateMachine ⟨envD.cfg, nowD2⟩ none (drained d5) = .ok () d6 ∧ d6.queue = [nak] ∧
+      -- every expiry re-issues the same NAK (all but the last are lost; with `times = []` none is)
+      nakRounds envD.cfg times (drained d6) = some (List.replicate times.length nak, dW) ∧
+      Source.stateMachine ⟨envS.cfg, t1⟩ (some nak) s4 = .ok () s5 ∧ s5.queue = [lost] ∧
+      Dest.stateMachine ⟨envD.cfg, t2⟩ (some lost) dW = .ok () d7 ∧ d7.queue = [.fin cd fpOk] ∧
+      Source.stateMachine ⟨envS.cfg, t3⟩ (some (.fin cd fpOk)) (Source.C07.drained s5) = .ok () s6 ∧
+      s6.queue = [Source.mkAck conf dtFinished ccNoError tsActive] ∧
+      Dest.stateMachine ⟨envD.cfg, t4⟩ (some (Source.mkAck conf dtFinished ccNoError tsActive)) (drained d7) = .ok () d8 ∧
+      Source.stateMachine ⟨envS.cfg, t5⟩ none (Source.C07.drained s6) = .ok () s7 ∧
+      s7.state = .idle ∧ d8.state = .idle ∧ s7.queue = [] ∧ d8.queue = [] ∧
+      d8.fs.get dst = some (.file F) ∧ (∀ q, q ≠ dst → d8.fs.get q = d0.fs.get q) ∧ s7.fs = s.fs ∧
+      d8.flts = [] ∧ s7.flts = s.flts ∧
+      s7.inds.filter isFinished = s.inds.filter isFinished ++
+        (if envS.cfg.indFinished then [.finished (some ⟨envS.cfg.entityId, ⟨s.prov.next, s.prov.bits / 8⟩⟩) fpOk]
+         else []) ∧
+      d8.inds.filter isFinished = d0.inds.filter isFinished ++
+        (if envD.cfg.indFinished then [.finished (some ⟨conf.src, conf.seq⟩) fpOk] else []) := by
+  intro conf cd fpOk nak lost
+  have hsrcv : conf.src.val = envS.cfg.entityId.val := by simp [conf, startConf]
+  have hdstv : conf.dst.val = rcS.entityId.val := by simp [conf, startConf, hrcid]
+  have e3 : (j + 1) * seg = j * seg + seg := by simp [Nat.add_mul]
+  have e1 : (j + 1 + r) * seg = j * seg + seg + r * seg := by simp [Nat.add_mul]
+  obtain ⟨pdus, s3, d5, s4, d6, hrun, hlost, hdeliv, hq5, h4, hdef, hq6, hW, hfs4, hfl4, hin4, hWd, hother6, hfl6, hin6, hnc6⟩ :=
+    C03_prefix_single_loss envS envD s d0 req rcS rcD src dst F crc seg j r maxSegs now2 nowD2
+      hst hstep hq hreq hpmo hsrc hdst hfile hF hprog hrc hrcid hbits hseg hseg0 hmode hct hk hcks hnull hlen hack ha
+      hnak himm hmaxs hmax1 hidle hdq hdr hrej hfl hnd hok
+  have hctr0 : (drained d6).p.nakCounter = 0 := hnc6
+  obtain ⟨dW, hrounds, hWW, hfsW, hflW, hinW⟩ := C03_nak_expiries envD.cfg dst F crc (j * seg) ((j + 1) * seg) rcD
+    ⟨conf.src, conf.seq⟩ rcS.cks cd (holeFile F (j * seg) ((j + 1) * seg) F.length) F.length maxSegs hmaxs hmax1
+    times (drained d6) ⟨nowD2, rcD.nakMs⟩ hWd hexp (by rw [hctr0]; omega)
+  have hcrc : rcS.cks = 15 ∨ ∀ fs : Fs, fs.get dst = some (.file F) →
+      Fs.calcChecksum fs (Checksum.CksType.ofNat rcS.cks) dst F.length 4096 = .ok crc := by
+    right
+    intro fs hf
+    have := Checksum.C09.C09_chunk_length_irrelevant (Checksum.CksType.ofNat rcS.cks) F F.length seg 4096
+      (by omega) (by omega)
+    simp [Fs.calcChecksum, hnull, hf, ← this, hcks]
+  obtain ⟨s5, d7, s6, d8, s7, h5, hq5', h7, hq7, h6, hq6', h8, h9, hi7, hi8, hqs7, hqd8, hfile8, hother8, hfs7, hfl8, hfl7,
+      hin7, hin8⟩ :=
+    C03_recovery_from_waiting envS.cfg envD.cfg s4 dW req src dst F crc seg (j * seg) ((j + 1) * seg) conf rcS rcD
+      ⟨envS.cfg.entityId, ⟨s.prov.next, s.prov.bits / 8⟩⟩ rcS.cks _ t1 t2 t3 t4 t5 hW.sentAll (Or.inl hW.hstep) hWW
+      (fun t => ⟨rfl, ha.hdst, ha.hsrc, ha.hmode⟩) hsrcv hdstv hseg0 e3 (by omega) hackD hcrc
+  have hl : Source.mkFd conf (j * seg) ((F.drop (j * seg)).take seg) = lost := by simp [lost, tile]
+  rw [hl] at hq5' h7
+  refine ⟨pdus, s3, d5, s4, d6, dW, s5, d7, s6, d8, s7, hrun, hlost, hdeliv, hq5, h4, hdef, hq6, hrounds, h5, hq5', h7, hq7,
+    h6, hq6', h8, h9, hi7, hi8, hqs7, hqd8, hfile8, ?_, ?_, ?_, ?_, ?_, ?_⟩
+  · intro q hq'
+    rw [hother8 q hq', hfsW]; exact hother6 q hq'
+  · rw [hfs7, hfs4]
+  · rw [hfl8, hflW]; exact hfl6
+  · rw [hfl7, hfl4]
+  · rw [hin7, hin4]
+  · rw [hin8, hinW]; show d6.inds.filter isFinished ++ _ = _
+    rw [hin6]
+
+open Source.C07 Source.C19 in
+/-- **End to end with one File Data PDU lost and its retransmission lost again: the two models
+composed.**  After `C03_prefix_single_loss` the NAK reaches the sender, which re-sends the lost PDU —
+and that one is lost too.  The receiver's NAK timer expires (`times`, fewer expiries than the NAK
+limit), each expiry re-issues exactly the same NAK; the last one reaches the sender, which is still in
+its retransmission step, resumes and answers again with exactly the lost PDU; recovery proceeds as
+in `C03_recovery_from_waiting`. -/
+theorem C03_end_to_end_retransmission_lost (envS : Source.Env) (envD : Dest.Env) (s : Source.SrcSt) (d0 : Dest.DestSt)
+    (req : Source.PutReq) (rcS rcD : RemoteCfg) (src dst : String) (F crc : List UInt8) (seg j r maxSegs : Nat)
+    (now2 nowD2 t0 t1 t2 t3 t4 t5 : Nat) (times : List Nat)
+    (hst : s.state = .busy) (hstep : s.step = .IDLE) (hq : s.queue = []) (hreq : s.putReq = some req)
+    (hpmo : s.p.metadataOnly = false) (hsrc : req.src = some src) (hdst : req.dst = some dst)
+    (hfile : s.fs.get src = some (.file F)) (hF : F ≠ []) (hprog : s.p.progress = 0)
+    (hrc : s.p.remoteCfg = some rcS) (hrcid : rcS.entityId.val = req.destId.val)
+    (hbits : s.prov.bits = 8 ∨ s.prov.bits = 16 ∨ s.prov.bits = 32)
+    (hseg : Source.segLenOf rcS (startConf envS req rcS s (decide (F.length > 4294967295))) = some seg)
+    (hseg0 : 0 < seg) (hmode : s.p.conf.mode = .ack) (hct : s.p.checkTimer = none)
+    (hk : (j + 1 + r) * seg < F.length ∧ F.length ≤ (j + 2 + r) * seg)
+    (hcks : Checksum.calcChecksum (Checksum.CksType.ofNat rcS.cks) F F.length seg = .ok crc)
+    (hnull : Checksum.CksType.ofNat rcS.cks ≠ .null) (hlen : crc.length = 4) (hack : rcS.ackMs ≠ 0)
+    (ha : AdmissibleA envD rcD { startConf envS req rcS s (decide (F.length > 4294967295)) with dir := .toRecv })
+    (hackD : rcD.ackMs ≠ 0) (hnak : rcD.nakMs ≠ 0) (himm : rcD.imm = false)
+    (hmaxs : maxSegReqs rcD.maxPkt
+      (let c := startConf envS req rcS s (decide (F.length > 4294967295))
+       ⟨.toSend, c.mode, c.crc, c.large, c.src, c.dst, c.seq⟩) = some maxSegs) (hmax1 : 1 ≤ maxSegs)
+    (hexp : C04.Expiring rcD.nakMs nowD2 times) (hlim : times.length < rcD.nakLim)
+    (hidle : d0.state = .idle) (hdq : d0.queue = []) (hdr : d0.numReady = 0) (hrej : d0.rejects = [])
+    (hfl : d0.flts = []) (hnd : Fs.isDir d0.fs dst = false)
+    (hok : (∃ old, d0.fs.get dst = some (.file old)) ∨
+           (Fs.exists' d0.fs dst = false ∧ Fs.parentIsDir d0.fs dst = true)) :
+    let conf := startConf envS req rcS s (decide (F.length > 4294967295))
+    let cd : Hdr := ⟨.toSend, conf.mode, conf.crc, conf.large, conf.src, conf.dst, conf.seq⟩
+    let fpOk : FinishedParams := ⟨ccNoError, dcComplete, fsRetained, none⟩
+    let nak : Pdu := .nak cd 0 F.length [(j * seg, (j + 1) * seg)]
+    let lost := tile conf F seg 0 j
+    ∃ pdus s3 d5 s4 d6 s5a dW s5 d7 s6 d8 s7,
+      rounds envS (1 + (j + 2 + r) + 1) s = some (pdus, s3) ∧ pdus[j + 1]? = some lost ∧
+      feedPdus envD (pdus.eraseIdx (j + 1)) d0 = some d5 ∧ d5.queue = [.ack cd dtEof ccNoError tsActive] ∧
+      Source.stateMachine ⟨envS.cfg, now2⟩ (some (.ack cd dtEof ccNoError tsActive)) s3 = .ok () s4 ∧
+      Dest.stateMachine ⟨envD.cfg, nowD2⟩ none (drained d5) = .ok () d6 ∧ d6.queue = [nak] ∧
+      -- the NAK is served, the answer is lost; every expiry re-issues the same NAK; the last is served again
+      Source.stateMachine ⟨envS.cfg, t0⟩ (some nak) s4 = .ok () s5a ∧ s5a.queue = [lost] ∧
+      nakRounds envD.cfg times (drained d6) = some (List.replicate times.length nak, dW) ∧
+      Source.stateMachine ⟨envS.cfg, t1⟩ (some nak) (Source.C07.drained s5a) = .ok () s5 ∧ s5.queue = [lost] ∧
+      Dest.stateMachine ⟨envD.cfg, t2⟩ (some lost) dW = .ok () d7 ∧ d7.queue = [.fin cd fpOk] ∧
+      Source.stateMachine ⟨envS.cfg, t3⟩ (some (.fin cd fpOk)) (Source.C07.drained s5) = .ok () s6 ∧
+      s6.queue = [Source.mkAck conf dtFinished ccNoError tsActive] ∧
+      Dest.stateMachine ⟨envD.cfg, t4⟩ (some (Source.mkAck conf dtFinished ccNoError tsActive)) (drained d7) = .ok () d8 ∧
+      Source.stateMachine ⟨envS.cfg, t5⟩ none (Source.C07.drained s6) = .ok () s7 ∧
+      s7.state = .idle ∧ d8.state = .idle ∧ s7.queue = [] ∧ d8.queue = [] ∧
+      d8.fs.get dst = some (.file F) ∧ (∀ q, q ≠ dst → d8.fs.get q = d0.fs.get q) ∧ s7.fs = s.fs ∧
+      d8.flts = [] ∧ s7.flts = s.flts ∧
+      s7.inds.filter isFinished = s.inds.filter isFinished ++
+        (if envS.cfg.indFinished then [.finished (some ⟨envS.cfg.entityId, ⟨s.prov.next, s.prov.bits / 8⟩⟩) fpOk]
+         else []) ∧
+      d8.inds.filter isFinished = d0.inds.filter isFinished ++
+        (if envD.cfg.indFinished then [.finished (some ⟨conf.src, conf.seq⟩) fpOk] else []) := by
+  intro conf cd fpOk nak lost
+  have hsrcv : conf.src.val = envS.cfg.entityId.val := by simp [conf, startConf]
+  have hdstv : conf.dst.val = rcS.entityId.val := by simp [conf, startConf, hrcid]
+  have e3 : (j + 1) * seg = j * seg + seg := by simp [Nat.add_mul]
+  have e1 : (j + 1 + r) * seg = j * seg + seg + r * seg := by simp [Nat.add_mul]
+  obtain ⟨pdus, s3, d5, s4, d6, hrun, hlost, hdeliv, hq5, h4, hdef, hq6, hW, hfs4, hfl4, hin4, hWd, hother6, hfl6, hin6, hnc6⟩ :=
+    C03_prefix_single_loss envS envD s d0 req rcS rcD src dst F crc seg j r maxSegs now2 nowD2
+      hst hstep hq hreq hpmo hsrc hdst hfile hF hprog hrc hrcid hbits hseg hseg0 hmode hct hk hcks hnull hlen hack ha
+      hnak himm hmaxs hmax1 hidle hdq hdr hrej hfl hnd hok
+  have hctr0 : (drained d6).p.nakCounter = 0 := hnc6
+  obtain ⟨dW, hrounds, hWW, hfsW, hflW, hinW⟩ := C03_nak_expiries envD.cfg dst F crc (j * seg) ((j + 1) * seg) rcD
+    ⟨conf.src, conf.seq⟩ rcS.cks cd (holeFile F (j * seg) ((j + 1) * seg) F.length) F.length maxSegs hmaxs hmax1
+    times (drained d6) ⟨nowD2, rcD.nakMs⟩ hWd hexp (by rw [hctr0]; omega)
+  have hcrc : rcS.cks = 15 ∨ ∀ fs : Fs, fs.get dst = some (.file F) →
+      Fs.calcChecksum fs (Checksum.CksType.ofNat rcS.cks) dst F.length 4096 = .ok crc := by
+    right
+    intro fs hf
+    have := Checksum.C09.C09_chunk_length_irrelevant (Checksum.CksType.ofNat rcS.cks) F F.length seg 4096
+      (by omega) (by omega)
+    simp [Fs.calcChecksum, hnull, hf, ← this, hcks]
+  have hl : Source.mkFd conf (j * seg) ((F.drop (j * seg)).take seg) = lost := by simp [lost, tile]
+  have hadm0 : AdmissibleS ⟨envS.cfg, t0⟩ s4 rcS cd :=
+    { hdir := rfl, hsrc := hsrcv, hrc := hW.hrc, hdst := hdstv,
+      hseq := by rw [hW.hconf], hmode := by rw [hW.hconf]; simp [conf, startConf, hmode] }
+  have h5a := C03_sender_serves_request ⟨envS.cfg, t0⟩ s4 rcS cd req src F (j * seg) ((j + 1) * seg) 0 F.length
+    hadm0 hW.hbusy hW.hstep hW.hqueue hW.hreq hW.hsrc hW.hfile (by rw [hW.hseg]; exact hseg0)
+    (by rw [hW.hseg]; exact e3) (by rw [hW.hprog]; omega)
+  rw [hW.hseg, hW.hconf, hl] at h5a
+  have hSa : SentAllS (Source.C07.drained (retransS s4 [lost])) req src F seg conf rcS
+      ⟨envS.cfg.entityId, ⟨s.prov.next, s.prov.bits / 8⟩⟩ :=
+    ⟨hW.hbusy, rfl, hW.hreq, hW.hsrc, hW.hfile, hW.hseg, hW.hprog, hW.hconf, hW.hrc, hW.htid⟩
+  obtain ⟨s5, d7, s6, d8, s7, h5, hq5', h7, hq7, h6, hq6', h8, h9, hi7, hi8, hqs7, hqd8, hfile8, hother8, hfs7, hfl8, hfl7,
+      hin7, hin8⟩ :=
+    C03_recovery_from_waiting envS.cfg envD.cfg (Source.C07.drained (retransS s4 [lost])) dW req src dst F crc seg
+      (j * seg) ((j + 1) * seg) conf rcS rcD
+      ⟨envS.cfg.entityId, ⟨s.prov.next, s.prov.bits / 8⟩⟩ rcS.cks _ t1 t2 t3 t4 t5 hSa (Or.inr ⟨rfl, rfl⟩) hWW
+      (fun t => ⟨rfl, ha.hdst, ha.hsrc, ha.hmode⟩) hsrcv hdstv hseg0 e3 (by omega) hackD hcrc
+  rw [hl] at hq5' h7
+  refine ⟨pdus, s3, d5, s4, d6, _, dW, s5, d7, s6, d8, s7, hrun, hlost, hdeliv, hq5, h4, hdef, hq6, h5a, rfl, hrounds, h5, hq5',
+    h7, hq7,
+    h6, hq6', h8, h9, hi7, hi8, hqs7, hqd8, hfile8, ?_, ?_, ?_, ?_, ?_, ?_⟩
+  · intro q hq'
+    rw [hother8 q hq', hfsW]; exact hother6 q hq'
+  · rw [hfs7]; exact hfs4
+  · rw [hfl8, hflW]; exact hfl6
+  · rw [hfl7]; exact hfl4
+  · rw [hin7]; show s4.inds.filter isFinished ++ _ = _
+    rw [hin4]
+  · rw [hin8, hinW]; show d6.inds.filter isFinished ++ _ = _
+    rw [hin6]
+
+
+
 end Cfdp.C03
 
 /-! ## the hypotheses of the composed theorems are satisfiable (non-vacuity) -/
@@ -1927,6 +2596,29 @@ example : True := by
     rfl rfl rfl rfl rfl rfl rfl rfl (by decide) rfl rfl rfl (by decide) (by decide) (by decide) rfl rfl
     (by decide) (by decide +kernel) (by decide) rfl (by decide) (by decide) (by decide)
     ⟨rfl, rfl, by decide, rfl⟩ (by decide)
+    rfl rfl rfl rfl rfl (by decide) (Or.inl ⟨[9], rfl⟩)
+  trivial
+
+/-- the hypotheses of `C03_end_to_end_naks_lost` are satisfiable: two NAKs lost (expiries at 1000 and
+2000 after the first issue at 0), NAK limit 3 -/
+example : True := by
+  have h := C03_end_to_end_naks_lost envS envD s d0 req rcS rcD "/a" "/b" F [71, 11, 153, 244] 2 0 1 29
+    1 0 2001 2002 2003 2004 2005 [1000, 2000]
+    rfl rfl rfl rfl rfl rfl rfl rfl (by decide) rfl rfl rfl (by decide) (by decide) (by decide) rfl rfl
+    (by decide) (by decide +kernel) (by decide) rfl (by decide)
+    ⟨rfl, rfl, by decide, rfl⟩ (by decide) (by decide) rfl (by decide) (by decide)
+    (by simp [C04.Expiring, rcD]) (by decide)
+    rfl rfl rfl rfl rfl (by decide) (Or.inl ⟨[9], rfl⟩)
+  trivial
+
+/-- the hypotheses of `C03_end_to_end_retransmission_lost` are satisfiable -/
+example : True := by
+  have h := C03_end_to_end_retransmission_lost envS envD s d0 req rcS rcD "/a" "/b" F [71, 11, 153, 244] 2 0 1 29
+    1 0 5 1001 1002 1003 1004 1005 [1000]
+    rfl rfl rfl rfl rfl rfl rfl rfl (by decide) rfl rfl rfl (by decide) (by decide) (by decide) rfl rfl
+    (by decide) (by decide +kernel) (by decide) rfl (by decide)
+    ⟨rfl, rfl, by decide, rfl⟩ (by decide) (by decide) rfl (by decide) (by decide)
+    (by simp [C04.Expiring, rcD]) (by decide)
     rfl rfl rfl rfl rfl (by decide) (Or.inl ⟨[9], rfl⟩)
   trivial
 
